@@ -2,8 +2,10 @@
     (1) Every logging call site of /repo is listed in Gen/LogSites.v (regenerated from the Go AST on every run)
         with the class of each argument expression; the classes are assigned by the hand-kept table
         lib/log_classes.json, anything not in the table is [LUnknown].
-    (2) The start-up banner prints a masked copy of the configuration (pkg/config/config.go:Initialize). *)
+    (2) The start-up banner prints a masked copy of the configuration (pkg/config/config.go:Initialize); the
+        redis.uri field of that copy is computed by [redact_uri_password] below. *)
 From Coq Require Import NArith List Bool.
+From WW Require Import Base.Bytes Model.GoUrl.
 Import ListNotations.
 
 Inductive lclass :=
@@ -44,3 +46,41 @@ Definition masked_fields (uri_masked : bool) : list bsecret :=
 
 Definition banner_leaks (uri_masked : bool) (c : bconfig) : list bsecret :=
   filter (fun s => negb (existsb (bsecret_eqb s) (masked_fields uri_masked))) c.
+
+(** * The redis.uri field of the banner
+    pkg/config/config.go:redactURIPassword, transliterated over Model/GoUrl.v (net/url of the pinned toolchain):
+    parse the configured value, replace the password in the PARSED URL, re-serialise. A non-empty value that
+    url.Parse rejects is replaced entirely. *)
+Definition redacted_text : bytes := [42;42;82;69;68;65;67;84;69;68;42;42].   (* "**REDACTED**" *)
+
+Definition url_with_user (u : url) (ui : option (bytes * option bytes)) : url :=
+  mkurl (u_scheme u) (u_opaque u) ui (u_host u) (u_path u) (u_rawpath u) (u_omithost u) (u_forcequery u)
+        (u_rawquery u) (u_fragment u) (u_rawfragment u).
+
+(* if _, hasPassword := u.User.Password(); hasPassword { u.User = url.UserPassword(u.User.Username(), replacement) } *)
+Definition url_set_password (u : url) (replacement : bytes) : url :=
+  match u_user u with
+  | Some (un, Some _) => url_with_user u (Some (un, Some replacement))
+  | _ => u
+  end.
+
+Definition redact_uri_password (uri replacement : bytes) : bytes :=
+  if is_empty uri then uri
+  else match parse_url uri with
+       | None => replacement
+       | Some u => url_string (url_set_password u replacement)
+       end.
+
+(* what the banner prints for redis.uri; [uri_masked = false]: the pre-fix banner printed the value verbatim *)
+Definition banner_uri_field (uri_masked : bool) (uri : bytes) : bytes :=
+  if uri_masked then redact_uri_password uri redacted_text else uri.
+
+(* the parsed URL with the VALUE of the password forgotten (whether there is one is kept) *)
+Definition url_erase_password (u : url) : url := url_set_password u [].
+
+(* the password embedded in a URI, decoded (what the Redis client authenticates with) *)
+Definition uri_password (uri : bytes) : option bytes :=
+  match parse_url uri with
+  | Some u => match u_user u with Some (_, Some p) => Some p | _ => None end
+  | None => None
+  end.
